@@ -125,11 +125,14 @@ def doc_spec(i: int) -> dict:
         {"family": "F4", "params": {"k": 0.5}, "y0": {"x": 1.0}},  # other rate law, same variable
         {"family": "F2", "params": {"c": 1.0, "k1": 0.5, "k2": 0.25}, "y0": {"x": 1.0, "y": 0.5}},  # more components
         {"family": "F2", "params": {"c": 1.0, "k1": 0.5, "k2": 0.75}, "y0": {"x": 1.0, "y": 0.5}},
+        # a rate law that is NOT symmetric in its arguments (a permuted signature changes the value)
+        {"family": "F2r", "params": {"kf": 2.0, "kr": 0.5}, "y0": {"x": 1.0, "y": 3.0}},
+        {"family": "F2r", "params": {"kf": 2.0, "kr": 0.25}, "y0": {"x": 1.0, "y": 3.0}},
     ]
     return table[i % len(table)]
 
 
-N_DOCS = 7
+N_DOCS = 9
 
 
 def _t_vin(c):  # noqa: ANN001, ANN202
@@ -152,6 +155,10 @@ def _t_v2(y, k2):  # noqa: ANN001, ANN202
     return k2 * y
 
 
+def _t_v1rev(kr, y, kf, x):  # noqa: ANN001, ANN202
+    return kf * x - kr * y
+
+
 def twin_model(i: int):  # noqa: ANN201
     """A HAND-WRITTEN model of document i whose Python functions carry the names of the
     document's reactions (a user who wrote the model by hand and exported it), with their
@@ -164,6 +171,10 @@ def twin_model(i: int):  # noqa: ANN201
     fns = {"vin": _t_vin, "vout": _t_vout, "v": _t_v, "v1": _t_v1, "v2": _t_v2}
     for n, f in fns.items():
         f.__name__ = n
+    if fam == "F2r":
+        _t_v1rev.__name__ = "v1"
+        m.add_reaction("v1", _t_v1rev, args=["kr", "y", "kf", "x"], stoichiometry={"x": -1, "y": 1})
+        return m
     if fam == "F1":
         m.add_reaction("vin", fns["vin"], args=["c"], stoichiometry={"x": 1})
         m.add_reaction("vout", fns["vout"], args=["k", "x"], stoichiometry={"x": -1})
@@ -185,6 +196,53 @@ def queries(model, state_id: int) -> dict:  # noqa: ANN001
         "ic": dict(model.get_initial_conditions()),
         "pv": dict(model.get_parameter_values()),
     }
+
+
+#: (document, state id) -> answers of that document read in a PRISTINE process (filled once
+#: per check start in a forked child, so that the checking process itself stays pristine)
+ISO_TABLE: dict = {}
+STATES = (1, 2, 3, 4)
+
+
+def compute_iso_table() -> dict:
+    """Fork a child that reads every document in isolation (own HOME, unique stem, bytecode
+    off) and sends back the answers; nothing of it stays in this process."""
+    import pickle
+
+    from mxlpy import sbml
+
+    base = _scratch()
+    r, w = os.pipe()
+    pid = os.fork()
+    if pid == 0:
+        code = 0
+        try:
+            os.close(r)
+            sys.dont_write_bytecode = True
+            table = {}
+            for i in range(N_DOCS):
+                home = base / f"iso-home-{i}"
+                home.mkdir(exist_ok=True)
+                os.environ["HOME"] = str(home)
+                p = base / f"iso_doc_{i}.xml"
+                sbml.write(models.build_model(doc_spec(i)), p)
+                for st in STATES:
+                    m = sbml.read(p)
+                    table[(i, st)] = queries(m, st)
+            with os.fdopen(w, "wb") as f:
+                pickle.dump(table, f)
+        except BaseException:  # noqa: BLE001
+            code = 3
+        finally:
+            os._exit(code)
+    os.close(w)
+    with os.fdopen(r, "rb") as f:
+        data = f.read()
+    _, status = os.waitpid(pid, 0)
+    shutil.rmtree(base, ignore_errors=True)
+    if os.waitstatus_to_exitcode(status) != 0 or not data:
+        raise HarnessError("isolated reads failed")
+    return pickle.loads(data)  # noqa: S301
 
 
 class Exec:
@@ -232,6 +290,8 @@ class Exec:
         from mxlpy import sbml
 
         key = (i, state_id)
+        if key in ISO_TABLE:
+            return ISO_TABLE[key]
         if key in self._iso:
             return self._iso[key]
         saved_home, saved_bc, saved_root = os.environ.get("HOME"), sys.dont_write_bytecode, CLOCK.root
@@ -424,6 +484,7 @@ def gen_case(rng: SimRng, tier: str) -> dict:  # noqa: ARG001
 class SessionMachine(Machine):
     name = "session"
     properties = ("C17",)
+    isolate_runs = True  # sbml.read leaves process-global state (sys.modules, module-level tables)
     runs = {"quick": 3000, "thorough": 150000}
     run_timeout = 240.0
     rule = (
@@ -439,43 +500,49 @@ class SessionMachine(Machine):
     stub_components = ["file mtimes of the generated sources -> simulated clock (pathlib.Path.open wrapped for the scratch cache directory only)", "sys.dont_write_bytecode as a configuration bit"]
     assumptions = [
         "ONLY the clause 'two documents read in one session do not interfere' is decided; import fidelity (the document's equations) is a pure function of the document and is not decided - an error the isolated read shares is not reported",
-        "isolation = unique stem + empty cache dir + bytecode off in the same interpreter; equivalence with a genuinely separate process is checked once per check start",
+        "isolation = every document read in a pristine forked child (own HOME, unique stem, bytecode off) once per check start; the checking process itself performs no read before the sessions, apart from the separate-process equivalence probe",
     ]
 
     def setup(self, tier: str) -> None:  # noqa: ARG002
-        """Once per check start: isolated-in-process read == read in a genuinely separate process."""
+        """Once per check start: (1) every document is read in a pristine forked child (the
+        oracle table); (2) for two documents the same read is repeated in a genuinely separate
+        interpreter and must agree.  The checking process itself reads nothing here."""
+        import json
+
         from mxlpy import sbml
 
+        ISO_TABLE.clear()
+        ISO_TABLE.update(compute_iso_table())
         base = _scratch()
         try:
-            results = {}
             code = (
                 "import sys, json\nfrom pathlib import Path\nfrom simkit import seams\nseams.install_quiet()\n"
+                "from simkit.core import canon\nfrom simkit.machines.session import queries\n"
                 "from mxlpy import sbml\nm = sbml.read(Path(sys.argv[1]))\n"
-                "print('RESULT', json.dumps([sorted(m.get_parameter_values().items()), sorted(m.get_initial_conditions().items()), m.get_right_hand_side().to_dict()]))\n"
+                "print('RESULT', json.dumps(canon(queries(m, 1))))\n"
             )
-            saved_home = os.environ.get("HOME")
-            for i in (1, 5):
+            ok = True
+            for i in (1, 7):
                 p = base / f"sep_doc{i}.xml"
-                sbml.write(models.build_model(doc_spec(i)), p)
+                pid = os.fork()  # write the document without touching this process' library state
+                if pid == 0:
+                    try:
+                        sbml.write(models.build_model(doc_spec(i)), p)
+                    finally:
+                        os._exit(0)
+                os.waitpid(pid, 0)
                 env = dict(os.environ, HOME=str(base / f"sep-home{i}"), PYTHONDONTWRITEBYTECODE="1")
                 os.makedirs(env["HOME"], exist_ok=True)
                 out = subprocess.run([sys.executable, "-P", "-c", code, str(p)], env=env, capture_output=True, text=True, timeout=300, check=False)
                 line = next((ln for ln in out.stdout.splitlines() if ln.startswith("RESULT ")), None)
                 if line is None:
                     raise HarnessError(f"separate-process read failed: {out.stderr[-400:]}")
-                import json
-
                 sep = json.loads(line[7:])
-                os.environ["HOME"] = str(base / f"inproc-home{i}")
-                os.makedirs(os.environ["HOME"], exist_ok=True)
-                m = sbml.read(p)
-                here = [sorted(m.get_parameter_values().items()), sorted(m.get_initial_conditions().items()), m.get_right_hand_side().to_dict()]
-                results[i] = diff_values(json.loads(json.dumps(here)), sep, rtol=1e-12) is None
-            os.environ["HOME"] = saved_home or ""
-            self.isolation_equivalence = all(results.values())
-            if not self.isolation_equivalence:
-                raise HarnessError("in-process isolated read differs from a separate-process read")
+                here = json.loads(json.dumps(canon(ISO_TABLE[(i, 1)])))
+                ok = ok and (sep == here)
+            self.isolation_equivalence = ok
+            if not ok:
+                raise HarnessError("isolated read in a forked child differs from a read in a separate interpreter")
         finally:
             shutil.rmtree(base, ignore_errors=True)
 
